@@ -537,13 +537,18 @@ export class DiplomatReceiveBuf {
 
         this.#hasResult = hasResult;
 
-        this.#buffer = this.#wasm.diplomat_alloc(this.#size, this.#align);
+        this.#buffer = this.#wasm.diplomat_alloc(this.#allocSize, this.#align);
 
         this.leak = () => { };
     }
+
+    // Rust writes whole values: the size rounded up to the alignment (a Result/Option's flag is followed by padding)
+    get #allocSize() {
+        return Math.ceil(this.#size / this.#align) * this.#align;
+    }
     
     free() {
-        this.#wasm.diplomat_free(this.#buffer, this.#size, this.#align);
+        this.#wasm.diplomat_free(this.#buffer, this.#allocSize, this.#align);
     }
     
     get buffer() {
